@@ -204,6 +204,11 @@ class C12(Check):
             'Pythagorean azimuths, axis points, the null cap at its centre; one-ulp neighbours stay undecided), as single '
             'caps, polygons (octants) and windows of polygons sharing an edge: decided by exact rational arithmetic, '
             'the circle belongs to a cap with cm >= 0.  '
+            'Class `twins`: windows (all file arms) in which polygons hold RELATED caps anywhere in their cap list - a cap and '
+            'its own complement (same centre, -cm: an empty polygon), a cap listed twice, both within 3e-11 in centre and cm, '
+            'an annulus (same centre, unrelated opposite cm) - with later polygons and a wide backstop cap around the same '
+            'points; every such member is also asked through is_in_polygon on the objects of each arm, and window_read is '
+            'called again with blist= / bcaps= kept.  '
             'Non-trivial: a membership case whose reference evaluated >= 2 used caps incl. a negative one in some '
             'polygon and decided >= 1 point closer than 1e-3 (in 1-x.p) to a cap boundary; a set_use_caps case whose '
             'index list is not a permutation of range(ncaps) or that removes/keeps a same-centre cap.  Distinct by '
@@ -235,6 +240,10 @@ class C12(Check):
         'arithmetic do not preserve the tie).  For cm < 0 the property gives the circle to the cap, not to the complement; '
         'the unchanged tree reports it inside the complement as well (cdist = -0.0 >= 0): counted '
         '(exact_tie_complement_reported_inside), not asserted',
+        'related caps: a polygon bounded by a cap and by the complement of that cap is a legitimate polygon (empty up to the '
+        'ambiguity band); which caps count is the use-mask alone (all caps for .ply and for balkans assembled by window_read, '
+        'as for a FITS table with USE_CAPS = 2**NCAPS - 1: "identical answers").  The VALUE of USE_CAPS on assembled balkans '
+        'is recorded (balkans_use_caps_*), not asserted: switching off an exact repeat changes no answer',
     ]
     REQUIRED_COUNTERS = ('radec_integer_dtype_cases', 'centre_asserted', 'centre_tiny_cm_asserted', 'antipode_asserted', 'near_boundary_decided',
                          'negative_caps_evaluated', 'masked_caps_skipped', 'ncaps_restricting', 'radec_cases',
@@ -252,7 +261,12 @@ class C12(Check):
                          'manycaps_mask_ge_2_63', 'manycaps_mask_bit31_or_more', 'manycaps_64_or_more_caps',
                          'manycaps_window', 'manycaps_file_arms', 'manycaps_usecaps',
                          'exact_tie_cap_asserted_inside', 'exact_tie_null_cap_centre', 'exact_tie_decides_polygon',
-                         'exact_tie_decides_window', 'exact_tie_complement_seen')
+                         'exact_tie_decides_window', 'exact_tie_complement_seen',
+                         'twins_complement', 'twins_repeat', 'twins_near_complement', 'twins_near_repeat', 'twins_annulus',
+                         'twins_points_decided_by_the_complement_cap', 'twins_points_decided_by_the_complement_cap_all_caps_used',
+                         'twins_window_answer_hinges_on_the_complement_cap',
+                         'twins_window_answer_hinges_on_the_complement_cap_all_caps_used', 'twins_member_queries',
+                         'arm_balkans_with_other_tables')
     # reach is required of the functions whose RETURN VALUES the property speaks about; cap_distance is a helper that
     # is_in_cap may legitimately stop using (its reach is still recorded in the evidence, not required)
     REQUIRED_REACH = {'mangle.is_in_polygon': 0.9, 'mangle.is_in_window': 0.9, 'mangle.set_use_caps': 0.9,
@@ -298,6 +312,7 @@ class C12(Check):
             'sequence': 400 if q else 10000,
             'manycaps': 120 if q else 3000,
             'ties': 300 if q else 6000,
+            'twins': 160 if q else 3000,
         }
 
     # ------------------------------------------------------------------ gen
@@ -328,6 +343,8 @@ class C12(Check):
             return self._gen_manycaps(g, i)
         if cls == 'ties':
             return self._gen_ties(g, i)
+        if cls == 'twins':
+            return self._gen_twins(g, i)
         raise KeyError(cls)
 
     def _gen_polygon_case(self, g, big):
@@ -651,6 +668,80 @@ class C12(Check):
         return {'kind': 'window', 'f32': False, 'polys': [{'x': x, 'cm': c, 'use': u} for x, c, u in polys],
                 'ncaps': ncp, 'coords': 'xyz', 'pts': pts, 'exact': [], 'requery': other_ncaps(g, ncp, nmax, 2),
                 'ties': True}
+
+    # ---- polygons whose cap list holds RELATED caps: a cap listed twice, a cap together with its own complement (same centre,
+    #      cm of the opposite sign: a legitimate polygon of zero area), the same within 1e-11 (inside set_use_caps' default
+    #      tolerance), and an annulus (same centre, unrelated cm of the opposite sign) - through every representation
+    RELATED = ['complement', 'complement', 'complement', 'complement', 'repeat', 'repeat', 'near_complement', 'near_repeat',
+               'annulus']
+
+    def _gen_twins(self, g, i):
+        f32 = bool(g.uniform() < 0.15)
+        npoly = int(g.integers(2, 7))
+        allcaps = bool(g.uniform() < 0.6)
+        polys, targets, twins = [], [], []
+        forced = int(g.integers(0, max(1, npoly - 1)))                 # this one holds a cap and its complement
+        for p in range(npoly):
+            if targets and g.uniform() < 0.7:                          # later polygons around the same points
+                t = rotate_from(g, targets[int(g.integers(len(targets)))], float(10 ** g.uniform(-4, -1)))
+            else:
+                t = unit(g)
+            nb = int(g.integers(1, 5))
+            mode = 'all' if allcaps or p == forced else str(g.choice(['all', 'all', 'random']))
+            xs, cms, use = gen_polygon(g, nb, 0, t, f32, mode)
+            use &= (1 << nb) - 1
+            nrel = 0
+            if p == forced or g.uniform() < 0.45:
+                nrel = 1 if g.uniform() < 0.8 else 2
+            for r in range(nrel):
+                nc = len(cms)
+                rel = 'complement' if (p == forced and r == 0) else str(g.choice(self.RELATED))
+                # source cap: preferably one that holds the target (so that the points around t are decided by the twin)
+                holding = [k for k in range(nc) if cms[k] > 0 and 1.0 - float(np.dot(xs[k], t)) < 0.9 * cms[k]]
+                src = int(holding[int(g.integers(len(holding)))]) if holding and g.uniform() < 0.85 else int(g.integers(nc))
+                x = np.array(xs[src], dtype=np.float64)
+                cm = float(cms[src])
+                if rel in ('near_complement', 'near_repeat') and not f32:
+                    v = g.normal(size=3)
+                    x = x + v / np.linalg.norm(v) * float(g.uniform(0, 3e-11))
+                    x = x / np.linalg.norm(x)                          # still a unit vector; moved by < 3e-11
+                    cm = max(-2.0, min(2.0, cm + float(g.uniform(-3e-11, 3e-11))))      # stays inside the domain |cm| <= 2
+                if rel in ('complement', 'near_complement'):
+                    cm = -cm
+                elif rel == 'annulus':
+                    cm = -cm * float(g.uniform(0.2, 0.8)) if abs(cm) > 1e-3 else -0.5
+                j = int(g.integers(src + 1, nc + 1))                   # anywhere after the source, not only next to it
+                bit = 1 if (mode == 'all' or g.uniform() < 0.85) else 0
+                use = (use & ((1 << j) - 1)) | (bit << j) | ((use >> j) << (j + 1))
+                xs.insert(j, [float(c) for c in x])
+                cms.insert(j, float(cm))
+                twins = [[a, b + 1 if (a == p and b >= j) else b, c + 1 if (a == p and c >= j) else c, d]
+                         for a, b, c, d in twins]
+                twins.append([p, src, j, rel])
+            polys.append((xs, cms, use))
+            targets.append(t)
+        if g.uniform() < 0.6:                                          # a wide single cap behind everything
+            t0 = targets[forced]
+            polys.append(([[float(c) for c in t0]], [float(g.uniform(0.3, 1.5))], 1))
+            targets.append(t0)
+            npoly += 1
+        maxc = max(len(c) for _, c, _ in polys)
+        ncp = int(g.choice([0, 0, 0, 0, 0, maxc, maxc + 2, max(1, maxc - 1), 2]))
+        pts, exact = gen_points(g, polys, targets[:6], 25, f32)
+        coords = 'radec' if g.uniform() < 0.35 else 'xyz'
+        pts, exact = finish_points(g, pts, exact, coords)
+        order = list(range(npoly))
+        g.shuffle(order)
+        return {'kind': 'files', 'f32': f32, 'polys': [{'x': x, 'cm': c, 'use': u} for x, c, u in polys],
+                'ncaps': ncp, 'coords': coords, 'pts': pts, 'exact': exact, 'requery': other_ncaps(g, ncp, maxc, 2),
+                'maxc': maxc, 'twins': twins,
+                'fmt': {'seed': int(g.integers(1 << 32)), 'ifield': bool(g.uniform() < 0.6), 'plain3d': False,
+                        'ply_header': int(g.integers(0, 4)), 'ply_pixel': bool(g.uniform() < 0.5),
+                        'ply_num': str(g.choice(['%.17g', '%.17e', 'repr', '%25.17g'])),
+                        'bcaps_order': [int(o) for o in order],
+                        'bcaps_gaps': [int(v) for v in g.integers(0, 3, size=npoly + 1)],
+                        'pad': max(0, int(g.integers(-1, 3))),
+                        'window_read_flags': [bool(g.uniform() < 0.5), bool(g.uniform() < 0.5)]}}
 
     # cap counts at and beyond the machine word sizes (use-mask bit 31 / 32 / 63 / 64 and above)
     MANY = [31, 32, 33, 63, 64, 65, 100]
@@ -1077,12 +1168,15 @@ class C12(Check):
         for j, p, k in exact:
             if R.centre_status(float(polys[p][1][k]), ctol) != UND:
                 out.count('centre_asserted')
+        if case.get('twins'):
+            self._twins_evidence(case, out, ref, masks, ncp)
         # --- arm 1: in-memory polygons
         pl = M.PolygonList([M.ManglePolygon(x=x.copy(), cm=cm.copy(), use_caps=use) for x, cm, use in polys])
         ok, res = self._call(out, 'mem', M.is_in_window, pl, pts, ncaps=ncp)
         if ok:
             out.count('arm_mem')
             self._cmp_window(out, 'window:mem', res, first, alt, case['pts'], ncaps=ncp)
+            self._twin_members(out, 'mem', pl, pts, ref, masks, False, ncp, case)
             # the same list again with other ncaps; then one member through is_in_polygon, then the list once more
             prev = self._requery_window(out, 'mem', pl, pts, ref, masks, False, values, case['pts'], prev=first)
             i0 = len(polys) // 2
@@ -1179,6 +1273,7 @@ class C12(Check):
                 if ok:
                     out.count('arm_fits_conv' if conv else 'arm_fits_raw')
                     self._cmp_window(out, 'window:' + arm, res, first, alt, case['pts'], ncaps=ncp, layout=layout)
+                    self._twin_members(out, arm, poly, pts, rq[0], rq[1], False, ncp, case)
                     # a single polygon taken out of the table answers like the reference polygon
                     i0 = len(polys) - 1
                     okp, gp = self._call(out, arm + ':is_in_polygon', M.is_in_polygon, poly[i0], pts, ncaps=ncp)
@@ -1273,6 +1368,7 @@ class C12(Check):
             out.count('arm_ply')
             self._cmp_window(out, 'window:ply', res, first_a, alt_a, case['pts'], ncaps=ncp)
             ref, masks, values = rq
+            self._twin_members(out, 'ply', poly, pts, ref, masks, True, ncp, case)
             self._requery_window(out, 'ply', poly, pts, ref, masks, True, values[-1:], case['pts'], prev=first_a,
                                  counter='requery_file_objects')
 
@@ -1323,14 +1419,80 @@ class C12(Check):
         bk = r['balkans']
         if not out.expect(len(bk) == npoly, 'window:balkans', 'assembled %d polygons from %d' % (len(bk), npoly)):
             return
+        # observed, not asserted: the property speaks about the answers of the assembled polygons, not about the mask value
+        try:
+            full = all(int(u) & ((1 << len(c)) - 1) == (1 << len(c)) - 1 for u, (_, c, _) in zip(bk['USE_CAPS'], polys))
+            out.count('balkans_use_caps_has_all_ncaps_bits' if full else 'balkans_use_caps_lacks_some_ncaps_bits')
+        except Exception:
+            out.count('balkans_use_caps_unreadable')
+        ref, masks, values = rq
         ok, res = self._call(out, 'balkans', M.is_in_window, bk, pts, ncaps=ncp)
         if ok:
             out.count('arm_balkans')
             self._cmp_window(out, 'window:balkans', res, first_a, alt_a, case['pts'], ncaps=ncp,
                              icap=icap, ncaps_list=[len(c) for _, c, _ in polys])
-            ref, masks, values = rq
+            self._twin_members(out, 'balkans', bk, pts, ref, masks, True, ncp, case)
             self._requery_window(out, 'balkans', bk, pts, ref, masks, True, values[:1], case['pts'], prev=first_a,
                                  counter='requery_file_objects')
+        # --- the reader asked for the other tables as well (blist / bcaps kept next to the balkans): same polygons
+        flags = fmt.get('window_read_flags')
+        if flags and any(flags):
+            os.environ['PHOTO_RESOLVE'] = rd
+            try:
+                ok, r2 = self._call(out, 'balkans_with_tables:read', W.window_read, blist=flags[0], bcaps=flags[1], balkans=True)
+            finally:
+                if saved is None:
+                    os.environ.pop('PHOTO_RESOLVE', None)
+                else:
+                    os.environ['PHOTO_RESOLVE'] = saved
+            if ok and out.expect(len(r2['balkans']) == npoly, 'window:balkans_with_tables',
+                                 'assembled %d polygons from %d' % (len(r2['balkans']), npoly)):
+                ok, res = self._call(out, 'balkans_with_tables', M.is_in_window, r2['balkans'], pts, ncaps=ncp)
+                if ok:
+                    out.count('arm_balkans_with_other_tables')
+                    self._cmp_window(out, 'window:balkans_with_tables', res, first_a, alt_a, case['pts'], ncaps=ncp,
+                                     blist=flags[0], bcaps=flags[1])
+                    self._twin_members(out, 'balkans_with_tables', r2['balkans'], pts, ref, masks, True, ncp, case)
+
+    # .............................................................. related caps inside one polygon
+    def _twins_evidence(self, case, out, ref, masks, ncp):
+        """Counters from the reference only: how many decided answers hinge on the LATER cap of a related pair (the one a
+        duplicate filter would switch off), for the masks of the case and for all caps used (.ply / balkans arms)."""
+        for pi, i, j, rel in case['twins']:
+            out.count('twins_' + rel)
+        for allcaps in (False, True):
+            full = [(1 << n) - 1 for n in ref.ncs] if allcaps else list(masks)
+            drop = list(full)
+            for pi, i, j, rel in case['twins']:
+                if rel in ('complement', 'near_complement', 'annulus') and (full[pi] >> i) & 1:
+                    drop[pi] &= ~(1 << j)
+            hinge = 0
+            for pi in sorted({t[0] for t in case['twins']}):
+                if drop[pi] != full[pi]:
+                    a, _ = ref.polygon(pi, full[pi], ncp)
+                    b, _ = ref.polygon(pi, drop[pi], ncp)
+                    hinge += int(((a == OUT) & (b == IN)).sum())
+            _, _, f1, a1 = ref.window(full, ncp)
+            _, _, f2, a2 = ref.window(drop, ncp)
+            nwin = sum(1 for q in range(len(f1)) if a1[q] is None and a2[q] is None and int(f1[q]) != int(f2[q]))
+            sfx = '_all_caps_used' if allcaps else ''
+            out.count('twins_points_decided_by_the_complement_cap' + sfx, hinge)
+            out.count('twins_window_answer_hinges_on_the_complement_cap' + sfx, nwin)
+
+    def _twin_members(self, out, arm, obj, pts, ref, masks, allcaps, ncp, case):
+        """is_in_polygon on every member of THIS arm's list that holds a related pair of caps (a window lookup can hide a
+        wrong member behind an earlier polygon that contains the point)."""
+        tw = case.get('twins')
+        if not tw:
+            return
+        for pi in sorted({t[0] for t in tw}):
+            u = (1 << ref.ncs[pi]) - 1 if allcaps else masks[pi]
+            st, _ = ref.polygon(pi, u, ncp)
+            ok, got = self._call(out, arm + ':is_in_polygon', self.M.is_in_polygon, obj[pi], pts, ncaps=ncp)
+            if ok:
+                out.count('twins_member_queries')
+                self._cmp_bool(out, 'polygon:%s:related_caps' % arm, got, st, case['pts'], polygon=pi, ncaps=ncp,
+                               related=[t[1:] for t in tw if t[0] == pi], cm=case['polys'][pi]['cm'])
 
     # .............................................................. repository fixtures
     def _run_fixture(self, case, out):
